@@ -24,7 +24,9 @@ pjax = loader.load("pjax")
 
 # ---- patch the module's dependencies with the API model -------------------------------------------
 pjax.jrand = J.jrand
-pjax.jc = StubNS(DropVar=J.DropVar, get_aval=lambda x: None, eval_jaxpr=None, TraceTag=object, Tracer=J.Tracer)
+# abstract value of a leaf: shape/dtype information only — the same for all values of one kind, whatever their
+# position in the argument tree
+pjax.jc = StubNS(DropVar=J.DropVar, get_aval=lambda x: ("aval", type(x).__name__), eval_jaxpr=None, TraceTag=object, Tracer=J.Tracer)
 pjax.Literal, pjax.Var = J.Literal, J.Var
 pjax.cond_p, pjax.scan_p = J.cond_p, J.scan_p
 pjax.switch = J.switch
@@ -370,6 +372,98 @@ class SeedWrapper(_SeedStep):
         yield "result_is_function_of_key_and_args_only", z3.And(same(r1[0], d(self.k1)), same(r2[0], d(self.k2)))
         yield "repeating_the_call_gives_the_identical_term", z3.eq(_lift(r1[0]), _lift(r3[0]))
         yield "no_hidden_randomness", self.taint.touched == 0 and not outputs_tainted([r1[0], r2[0], r3[0]])
+
+
+@contract("genjax.pjax:seed", ["C06"])
+class SeedWrapperHistory(_SeedStep):
+    """call history: ONE kept wrapper g = seed(f) called with differently STRUCTURED arguments whose leaves have
+    identical types (a None in another optional slot, another keyword name).  f's staged program depends on that
+    structure; every call must run the program of ITS OWN arguments: the result equals what a fresh wrapper returns
+    for the same key and arguments, whatever was called before"""
+
+    cases = ["none_in_another_slot", "another_keyword_name"]
+
+    def call(self, case):
+        self.taint = install_taint()
+        self.siteA, self.siteB = Site(name="A"), Site(name="B")
+
+        def program(site):
+            x, s, o = J.Var("x"), J.Var("s"), J.Var("o")
+            return _closed(J.Jaxpr([], [x, s], [J.Eqn(site.prim, [x, s], [o])], [o]))
+
+        pa, pb = program(self.siteA), program(self.siteB)
+
+        def f(*a, **k):
+            raise EngineLimit("f's body is represented by its Jaxpr")
+
+        if case == "none_in_another_slot":
+            f.__vt_jaxpr_fn__ = lambda args, kwargs: pa if args[1] is None else pb
+            self.vx, self.vs = value("x"), value("s")
+            first, second = ((self.vx, None, self.vs), {}), ((self.vx, self.vs, None), {})
+        else:
+            f.__vt_jaxpr_fn__ = lambda args, kwargs: pa if "shift" in kwargs else pb
+            self.vx, self.vs = value("x"), value("s")
+            first, second = ((self.vx,), {"shift": self.vs}), ((self.vx,), {"scale": self.vs})
+        self.k1, self.k2 = J.key_const("k1"), J.key_const("k2")
+        g = pjax.seed(f)
+        r_first = self.real(g, self.k1, *first[0], **first[1])
+        r_second = self.real(g, self.k2, *second[0], **second[1])
+        r_fresh = self.real(pjax.seed(f), self.k2, *second[0], **second[1])
+        return r_first, r_second, r_fresh
+
+    def ensures(self, case, path):
+        yield "does_not_raise", path.outcome == "return"
+        if path.outcome != "return":
+            return
+        r_first, r_second, r_fresh = path.value
+        want = Sym(DrawK(z3.IntVal(self.siteB.id * 10), Key.R(self.k2.e), enc((self.vx, self.vs))))
+        yield "second_call_runs_the_program_of_its_own_arguments", same(r_second[0], want)
+        yield "result_does_not_depend_on_the_call_history(kept wrapper = fresh wrapper)", z3.eq(_lift(r_second[0]), _lift(r_fresh[0]))
+        yield "no_hidden_randomness", self.taint.touched == 0 and not outputs_tainted([r_first[0], r_second[0], r_fresh[0]])
+
+
+@contract("genjax.pjax:Seed.eval", ["C06", "C07"])
+class SeedEval(_SeedStep):
+    """Seed.eval(fn, *args, **kwargs): fn is staged on exactly (args, kwargs); the Jaxpr is interpreted with its
+    literals as constants and the flat arguments in order, keyed by this interpreter's key; the flat results are
+    rebuilt with fn's output tree"""
+
+    cases = ["args_and_kwargs"]
+
+    def call(self, case):
+        self.taint = install_taint()
+        self.site = Site(name="site")
+        c, x, y, o = J.Var("c"), J.Var("x"), J.Var("y"), J.Var("o")
+        self.lit = value("lit")
+        closed = _closed(J.Jaxpr([c], [x, y], [J.Eqn(self.site.prim, [c, x, y], [o])], [o, x]), [self.lit])
+
+        def f(*a, **k):
+            raise EngineLimit("f's body is represented by its Jaxpr")
+
+        f.__vt_jaxpr__ = closed
+        import jax.tree_util as jtu
+
+        f.__vt_out_tree__ = jtu.tree_structure({"draw": 0, "echo": 0})
+        self.f = f
+        self.k0 = J.key_const("k0")
+        self.vx, self.vy = value("x"), value("y")
+        n0 = len(STAGE.calls)
+        it = interp(self.k0)
+        out = self.real(it.eval, f, self.vx, scale=self.vy)
+        self.staged = STAGE.calls[n0:]
+        self.it = it
+        return out
+
+    def ensures(self, case, path):
+        yield "does_not_raise", path.outcome == "return"
+        if path.outcome != "return":
+            return
+        out = path.value
+        st = self.staged
+        yield "fn_staged_once_on_exactly_the_given_arguments", len(st) == 1 and st[0][0] is self.f and st[0][1] == (self.vx,) and set(st[0][2]) == {"scale"} and st[0][2]["scale"] is self.vy
+        yield "site_keyed_below_the_interpreters_key_with_literals_then_flat_arguments", len(self.site.calls) == 1 and same(self.site.calls[0][0], Sym(Key.R(self.k0.e))) and [a for a in self.site.calls[0][1]] == [self.lit, self.vx, self.vy]
+        yield "result_rebuilt_with_the_output_tree", isinstance(out, dict) and set(out) == {"draw", "echo"} and out["echo"] is self.vx
+        yield "no_hidden_randomness", self.taint.touched == 0 and not outputs_tainted([v for v in out.values() if isinstance(v, Sym)] if isinstance(out, dict) else [])
 
 
 @contract("lemma:seed_key_discipline", ["C07", "C06"], kind="lemma")
